@@ -1,4 +1,14 @@
-from vcheck import Check, Rng
+import concurrent.futures
+import os
+import shutil
+import signal
+import subprocess
+
+import vcheck
+from vcheck import Check, Rng, run, log
+
+MPIEXEC = ["mpiexec", "--allow-run-as-root", "--oversubscribe", "--mca", "mpi_yield_when_idle", "1"]
+MPI_MODES = {0: "one large flow", 1: "two large flows", 2: "large + CTL", 3: "large + short", 4: "two large + CTL + short"}
 
 
 def parent(i):
@@ -211,13 +221,109 @@ class C11(Check):
         out = []
         reps = 3 if self.tier == "quick" else 40
         out += cross_wave_family(5 if self.tier == "quick" else 7)
+        mpi = self.mpi_cases(r)
         for _ in range(reps):
             out += self.directed(r)
         for _ in range(2500 if self.tier == "quick" else 60000):
             out.append(self.random_case(r))
-        return ["%d | %s | %s" % (n, " ".join(sc), f) for (n, sc, f) in out]
+        return mpi + ["%d | %s | %s" % (n, " ".join(sc), f) for (n, sc, f) in out]
+
+    def mpi_cases(self, r):
+        """real runs of harness/h_term4c_mpi.jdf:  mpi <np> <mode> <nt> <cores>"""
+        out = []
+        for mode in range(5):
+            for np_ in (2, 3):
+                out.append("mpi %d %d %d %d" % (np_, mode, r.pick([3, 4, 5, 7]), r.pick([1, 2])))
+        if self.tier != "quick":
+            for _ in range(30):
+                out.append("mpi %d %d %d %d" % (r.pick([2, 3, 4]), r.range(1, 4), r.range(1, 24), r.pick([1, 2, 3])))
+        return out
+
+    # ---- T-obs: the real runtime on the four-counter detector (call sites of the counting entry points)
+    mpi_limit = int(os.environ.get("VERIF_C11_MPI_LIMIT", "12"))
+    mpi_jobs = int(os.environ.get("VERIF_C11_JOBS", "3"))
+
+    def mpi_dir(self):
+        return os.path.join(vcheck.WORK, "c11mpi" + vcheck._SFX)
+
+    def build_mpi(self):
+        """ptgpp + cc of harness/h_term4c_mpi.jdf against the repository under test; returns None or an error text"""
+        d = self.mpi_dir()
+        os.makedirs(d, exist_ok=True)
+        shutil.copy(os.path.join(vcheck.VERIF, "harness/h_term4c_mpi.jdf"), os.path.join(d, "h_term4c_mpi.jdf"))
+        ptgpp = os.path.join(vcheck.PBUILD, "parsec/interfaces/ptg/ptg-compiler/parsec-ptgpp")
+        rc, o, e = run([ptgpp, "-E", "-i", "h_term4c_mpi.jdf", "-o", "h_term4c_mpi"], cwd=d, timeout=120)
+        if rc != 0:
+            return "parsec-ptgpp failed: " + (o + e)[-600:]
+        libdir = os.path.join(vcheck.PBUILD, "parsec")
+        cmd = (["cc"] + vcheck.harness_cflags(vcheck.PBUILD) + ["-I" + d, "-w", "h_term4c_mpi.c", "-o", "h_term4c_mpi",
+               "-L" + libdir, "-lparsec", "-Wl,-rpath," + libdir, "-lpthread", "-lm", "-lhwloc", "-ldl"] + vcheck.MPI_LINK)
+        rc, o, e = run(cmd, cwd=d, timeout=300)
+        if rc != 0:
+            return "cc failed: " + (o + e)[-800:]
+        return None
+
+    def run_mpi_once(self, w, limit, tag):
+        np_, mode, nt, cores = w
+        d = self.mpi_dir()
+        so = os.path.join(d, tag + ".out")
+        env = dict(os.environ)
+        with open(so, "w") as fo:
+            pr = subprocess.Popen(MPIEXEC + ["-n", str(np_), "./h_term4c_mpi", str(nt), str(mode), str(cores), str(limit)],
+                                  cwd=d, env=env, stdout=fo, stderr=subprocess.STDOUT, stdin=subprocess.DEVNULL,
+                                  start_new_session=True)
+            try:
+                pr.wait(timeout=limit + 30)
+            except subprocess.TimeoutExpired:
+                pass
+            try:
+                os.killpg(pr.pid, signal.SIGKILL)
+            except OSError:
+                pass
+            try:
+                pr.wait(timeout=10)
+            except Exception:
+                pass
+        ranks = {}
+        for line in open(so, errors="replace"):
+            f = line.split()
+            if len(f) >= 8 and f[0] == "R" and f[1].isdigit():
+                try:
+                    ranks[int(f[1])] = (f[2], dict((kv.split("=")[0], int(kv.split("=")[1])) for kv in f[3:]))
+                except Exception:
+                    pass
+        return ranks
+
+    def run_mpi_case(self, idx, case):
+        w = [int(x) for x in case.split()[1:5]]
+        ranks = self.run_mpi_once(w, self.mpi_limit, "c%d" % idx)
+        ok = len(ranks) == w[0] and all(v[0] == "OK" for v in ranks.values())
+        if not ok:   # not believed before a second run with a larger limit (machine load)
+            ranks = self.run_mpi_once(w, 2 * self.mpi_limit, "c%d" % idx)
+            ok = len(ranks) == w[0] and all(v[0] == "OK" for v in ranks.values())
+        tot = lambda k: sum(v[1].get(k, 0) for v in ranks.values())  # noqa: E731
+        return "mpi term=%d ranks=%d sent=%d started=%d recv=%d cons=%d errors=%d" % (
+            1 if ok else 0, len(ranks), tot("starts"), tot("rstarts"), tot("ends"), tot("cons"), tot("errors"))
+
+    def run_impl(self, casefile, n):
+        lines = Check.run_impl(self, casefile, n)
+        cases = [l.rstrip("\n") for l in open(casefile) if l.strip() and not l.startswith("#")]
+        todo = [i for i, c in enumerate(cases[:n]) if c.startswith("mpi ")]
+        if todo:
+            err = self.build_mpi()
+            if err:
+                log("C11: " + err)
+                for i in todo:
+                    lines[i] = "<mpi program does not build: %s>" % err.replace("\n", " ")[:160]
+            else:
+                with concurrent.futures.ThreadPoolExecutor(max_workers=self.mpi_jobs) as ex:
+                    for i, res in zip(todo, ex.map(lambda i: self.run_mpi_case(i, cases[i]), todo)):
+                        lines[i] = res
+        return lines
 
     def nontrivial_key(self, case):
+        if case.startswith("mpi "):
+            return case if int(case.split()[2]) >= 1 else None
         n = int(case.split("|")[0])
         toks = case.split("|")[1].split()
         if any(t[0] == "s" for t in toks) or (n >= 2 and any(t[0] == "d" for t in toks)):
@@ -225,7 +331,8 @@ class C11(Check):
         return None
 
     def dist(self, cases):
-        d = {}
+        d = {"mpi_runs": sum(1 for c in cases if c.startswith("mpi "))}
+        cases = [c for c in cases if not c.startswith("mpi ")]
         for c in cases:
             n = int(c.split("|")[0])
             d["N=%d" % n] = d.get("N=%d" % n, 0) + 1
@@ -241,7 +348,27 @@ class C11(Check):
         ranks = [[int(x) for x in part.split()] for part in body.split(";")]
         return ranks, int(nk[2:]), int(qk[2:])
 
+    def oracle_mpi(self, case, obs):
+        w = case.split()
+        try:
+            f = dict(kv.split("=") for kv in obs.split()[1:])
+            f = {k: int(v) for k, v in f.items()}
+        except Exception:
+            return "unparsable observation: " + obs[:100]
+        what = "%s ranks, %s (mode %s), %s activations" % (w[1], MPI_MODES.get(int(w[2]), "?"), w[2], w[3])
+        if f["sent"] != f["recv"] or f["started"] != f["sent"]:
+            return ("%s: outgoing_message_start called %d times, incoming_message_start %d, incoming_message_end %d: a message "
+                    "is not counted received exactly once%s" % (what, f["sent"], f["started"], f["recv"],
+                                                               "" if f["term"] else "; the taskpool never terminated"))
+        if not f["term"] or f["ranks"] != int(w[1]):
+            return "%s: the taskpool did not terminate on every rank (watchdog)" % what
+        if f["errors"] or f["cons"] != int(w[3]):
+            return "%s: %d wrong data, %d of %s consumers ran" % (what, f["errors"], f["cons"], w[3])
+        return None
+
     def oracle(self, case, obs):
+        if case.startswith("mpi "):
+            return self.oracle_mpi(case, obs)
         try:
             n = int(case.split("|")[0])
             parts = [p.strip() for p in obs.split("|")]
@@ -291,6 +418,9 @@ class C11(Check):
         return None
 
     def signature(self, case, obs):
+        if case.startswith("mpi "):
+            r = self.oracle(case, obs) or ""
+            return "mpi-%s-mode%s" % ("count" if "exactly once" in r else "hang" if "terminate" in r else "data", case.split()[2])
         r = self.oracle(case, obs) or "diff"
         key = "unsafe" if "TERMINATED while" in r or "terminated with" in r else \
               "callback" if "callback" in r and "FIN: rank" not in r else \
